@@ -1355,3 +1355,37 @@ def oracle(c, impl):
 
 def extra(tier, rng):
     return {'report': dict(STATS, cond_max=COND_MAX), 'violations': []}
+
+
+
+# ------------------------------------------------------------------ WP-T4: translation layer (source -> Gallina)
+# An ADDITIONAL tie (DESIGN 10.3): harness/gen_src.py (suite 'C12') translates the array bookkeeping of lentil/zernike.py:zernike_basis and zernike_compose (basis cube shape, vectorised reshape, coefficient k -> mode k + 1)
+# from the CURRENT source text into coq/theories/Gen/ZernikeFitSrc.v; Proofs/ZernikeFitSrcP.v proves every translated term equal to the model for
+# all integers; Properties/C12Src.v states it.  Policy: a function the translator refuses is only reported; a
+# translated function whose equivalence lemma no longer compiles is compared with the model mirror on sampled points,
+# an exhaustive small box and random points - a found disagreement is a VIOLATION with that witness (replayable: op
+# 'src'), none found is reported as unproved.  The build of C12Src happens here, never in COQ_TARGETS.
+_extra_before_src_layer = extra
+
+
+def extra(tier, rng):
+    from .. import gen_src as G
+    try:
+        base = _extra_before_src_layer(tier, rng)
+    except Exception as e:          # keep the translation layer's verdict when the other checks cannot even run
+        import traceback
+        base = {'report': {'error': traceback.format_exc()[-800:]},
+                'violations': [{'case': None, 'impl': None,
+                                'what': f'extra: the checks preceding the translation layer raised {type(e).__name__}: {e}'}]}
+    layer = G.run_layer('C12', ID, tier, rng, C)
+    report = dict(base.get('report', {}))
+    report['source_translation'] = layer['report']
+    return {'report': report, 'violations': list(base.get('violations', [])) + layer['violations']}
+
+
+def _wrap_src_replay():
+    from .. import gen_src as G
+    return G.wrap_replay(run_impl, oracle, C)
+
+
+run_impl, oracle = _wrap_src_replay()
